@@ -87,9 +87,10 @@ impl<T: UsesTypeParams, U> UsesTypeParams for Punctuated<T, U> {
 }
 
 uses_type_params!(syn::AngleBracketedGenericArguments, args);
-uses_type_params!(syn::AssocType, ty);
+uses_type_params!(syn::AssocConst, generics);
+uses_type_params!(syn::AssocType, generics, ty);
 uses_type_params!(syn::BareFnArg, ty);
-uses_type_params!(syn::Constraint, bounds);
+uses_type_params!(syn::Constraint, generics, bounds);
 uses_type_params!(syn::DataEnum, variants);
 uses_type_params!(syn::DataStruct, fields);
 uses_type_params!(syn::DataUnion, fields);
@@ -229,9 +230,11 @@ impl UsesTypeParams for syn::GenericArgument {
             syn::GenericArgument::Type(ref v) => v.uses_type_params(options, type_set),
             syn::GenericArgument::AssocType(ref v) => v.uses_type_params(options, type_set),
             syn::GenericArgument::Constraint(ref v) => v.uses_type_params(options, type_set),
-            syn::GenericArgument::AssocConst(_)
-            | syn::GenericArgument::Const(_)
-            | syn::GenericArgument::Lifetime(_) => Default::default(),
+            // the value is a const expression, the generic arguments of the name are not
+            syn::GenericArgument::AssocConst(ref v) => v.uses_type_params(options, type_set),
+            syn::GenericArgument::Const(_) | syn::GenericArgument::Lifetime(_) => {
+                Default::default()
+            }
             // non-exhaustive enum
             // TODO: replace panic with failible function
             _ => panic!("Unknown syn::GenericArgument: {:?}", self),
